@@ -8,6 +8,7 @@
 package c07
 
 import (
+	"verifharness/c15"
 	"bufio"
 	"bytes"
 	"context"
@@ -247,6 +248,14 @@ func pgpShape(r *hx.Rng, src string) string {
 func Gen(w *bufio.Writer, seed uint64, tier string) {
 	g := &gen{w: w, r: hx.NewRng(hx.NewRng(seed).U64()), ids: map[string]int{}}
 	thorough := tier == "thorough"
+
+	// (0) key lookup under overlap: a lookup pinned to key id 1 while the key rotates and unpinned lookups arrive
+	for _, e := range []int{0, 1} {
+		for _, k := range []int{1, 4} {
+			fmt.Fprintf(w, "C07 keylookup %d %d\n", e, k)
+			fmt.Fprintf(w, "C07 keylookup %d %d rev\n", e, k)
+		}
+	}
 
 	// (a) SameKey on every pair of descriptors, public and through Public()
 	skDescs := append(append([]string{}, certDescs...), "E.384.3.103", "E.521.3.103", "O.2", "O.3", "R.2.3")
@@ -1222,6 +1231,11 @@ func Impl() {
 	defer os.RemoveAll(dir)
 	im := &impl{dir: dir}
 	hx.EachLine(func(f []string) string {
+		if (len(f) == 3 || len(f) == 4) && f[0] == "keylookup" {
+			// the worker's Sign RPC pins the key id the client already embedded: token/tokencache must never answer a
+			// pinned lookup with another key, whatever overlaps it (shared with C15's cacherace op)
+			return c15.RunCacheRace(f[1:])
+		}
 		return guarded(func() string {
 			defer func() {
 				// keep the scratch directory small
